@@ -44,3 +44,9 @@ Theorem c02_data_extract : forall buf rtres f, wfbytes buf -> spec_classify buf 
   parse_data f = spec_data f.
 Proof. exact data_exact. Qed.
 Print Assumptions c02_data_extract.
+
+(* the reported lengths are kept in Z by the model: the C fields that hold them are size_t wide *)
+Theorem c02_length_fields_wide :
+  fsz_libwifi_frame__len = host_sizeof_size_t /\ fsz_libwifi_frame__header_len = host_sizeof_size_t /\ 8 <= host_sizeof_size_t.
+Proof. repeat split; try reflexivity; try (vm_compute; discriminate). Qed.
+Print Assumptions c02_length_fields_wide.
